@@ -1,5 +1,5 @@
 (* C10 -- streaming bodies make progress under every producer/consumer interleaving. *)
-From HS Require Import Lib.Base Model.Chunker Model.ChunkerConc Proofs.ChunkerP Proofs.ConcP Proofs.ChunkerHist.
+From HS Require Import Lib.Base Model.Chunker Model.ChunkerConc Proofs.ChunkerP Proofs.ConcP Proofs.ChunkerHist Proofs.AbortSteps.
 
 (* The transition system: the producer runs its program one critical section at a time and owes
    the wake-up of the waker it took as a separate step (the real code wakes after unlocking); the
@@ -68,6 +68,16 @@ Example c10_instance :
   end = (CDone, [1], None).
 Proof. vm_compute. reflexivity. Qed.
 
+(* However many chunks are queued -- one or a million -- that many consecutive polls deliver exactly them, in
+   order, each as data: the consumer is never told Pending while the queue is non-empty, so it needs no
+   further wake-up to get what a flush has made available (and after the last chunk of a dropped writer's
+   queue the body is at its end). *)
+Theorem c10_queued_chunks_are_delivered : forall q s rb wd w, c_reader s = true -> c_st s = SOk q rb wd ->
+  let '(sf, rs) := crun s (repeat (OPoll w) (length q)) in
+  del_total rs = concat q /\ Forall (fun p => exists d, fst p = RPoll (Some (Some (Some d)))) rs /\
+  (c_st sf = SOk [] (rb - lenN (concat q)) wd \/ (q <> [] /\ wd = true /\ c_st sf = SFused)).
+Proof. exact queued_chunks_are_delivered. Qed.
+
 Print Assumptions c10_no_lost_wakeup.
 Print Assumptions c10_woken_after_termination.
 Print Assumptions c10_not_asleep_on_data.
@@ -76,3 +86,4 @@ Print Assumptions c10_bounded_end.
 Print Assumptions c10_schedules_are_histories.
 Print Assumptions c10_prefix_under_all_schedules.
 Print Assumptions c10_invariant_under_all_schedules.
+Print Assumptions c10_queued_chunks_are_delivered.
